@@ -237,7 +237,7 @@ def b_elemop(V, cfg):
     ndof = cfg.get("ndof", dom.dim)
     if which in ("Strain", "Stress"):
         ndof = dom.dim
-    u = V.reals("u", ndof * dom.nnodes)
+    u = V.cplxs("u", ndof * dom.nnodes) if cfg.get("cplx_u") else V.reals("u", ndof * dom.nnodes)
     sig = pym.Signal("u", u)
     if which == "Strain":
         m = pym.Strain(sig, domain=dom, voigt=cfg.get("voigt", True))
@@ -709,6 +709,11 @@ def module_grid(tier):
         for mesh in [(1, 1, 0), (2, 2, 0), (1, 1, 1)] if q else [(1, 1, 0), (2, 1, 0), (2, 2, 0), (3, 2, 0), (1, 1, 1), (2, 1, 1)]:
             add("elemop", "%s-%dx%dx%d" % ((which,) + mesh), which=which, mesh=mesh, ndof=(1 if which in ("ElementAverage", "ElementOperation") else None) or 1)
     add("elemop", "Strain-novoigt", which="Strain", mesh=(2, 1, 0), voigt=False)
+    # complex nodal vectors (time-harmonic response): NumPy's real/complex casting rules are modelled (logical dtypes)
+    add("elemop", "Strain-cplx-u", which="Strain", mesh=(1, 1, 0), cplx_u=True, logical_dtype=True)
+    add("elemop", "ElementAverage-cplx-u", which="ElementAverage", mesh=(2, 1, 0), ndof=1, cplx_u=True, logical_dtype=True)
+    add("elemop", "ElementOperation-rep-cplx-u", which="ElementOperation", mesh=(1, 1, 0), ndof=2, fullmat=False, cplx_u=True,
+        logical_dtype=True)
     add("elemop", "Stress-planestress", which="Stress", mesh=(2, 1, 0), plane="stress")
     add("elemop", "ElementAverage-ndof2", which="ElementAverage", mesh=(2, 1, 0), ndof=2)
     add("elemop", "ElementOperation-m", which="ElementOperation", mesh=(2, 1, 0), ndof=2, opshape=(2,))
